@@ -10,9 +10,10 @@ def parseRange (s : String) : Option (Nat × Nat × Nat) :=
     return (a, b, c)
   | _ => none
 
-/-- the generated table, decoded once -/
-def charRanges : Array (Nat × Nat × Nat) :=
-  ((Gen.charRangesStr.splitOn ";").filterMap parseRange).toArray
+/-- the generated table (a Lean literal the kernel can evaluate; `Lemmas/TableFacts.lean` proves facts about it).
+    `irreducible`: the elaborator must not try to evaluate the ~2000-entry literal (e.g. its `size`) when it
+    unfolds `classBitsAux`; the kernel and the compiled driver are not affected by the attribute. -/
+@[irreducible] def charRanges : Array (Nat × Nat × Nat) := Gen.charRangesList.toArray
 
 /-- binary search in the generated range table -/
 def classBitsAux (cp : Nat) (lo hi : Nat) (fuel : Nat) : Nat :=
@@ -50,11 +51,8 @@ def parseCps (s : String) : List Char :=
   if s.isEmpty then [] else (s.splitOn ".").filterMap (fun p => p.toNat?.map Char.ofNat)
 
 /-- unicase folding table (generated), as an association array sorted by code point -/
-def foldTable : Array (Nat × List Char) :=
-  ((Gen.foldStr.splitOn ";").filterMap (fun e =>
-    match e.splitOn ">" with
-    | [a, b] => a.toNat?.map (fun n => (n, parseCps b))
-    | _ => none)).toArray
+@[irreducible] def foldTable : Array (Nat × List Char) :=
+  (Gen.foldList.map (fun e => (e.1, e.2.map Char.ofNat))).toArray
 
 def foldLookupAux (cp lo hi fuel : Nat) : Option (List Char) :=
   match fuel with
@@ -73,10 +71,7 @@ def realFold (c : Char) : List Char := (foldLookupAux c.toNat 0 foldTable.size 6
 
 /-- keys of the bundled converter -/
 def unitKeyTable : List (List Char × Nat) :=
-  (Gen.unitKeysStr.splitOn ";").filterMap (fun e =>
-    match e.splitOn ":" with
-    | [k, q] => q.toNat?.map (fun n => (parseCps k, n))
-    | _ => none)
+  Gen.unitKeysList.map (fun e => (e.1.map Char.ofNat, e.2))
 
 def bundledFindUnit (k : List Char) : Option Nat := (unitKeyTable.find? (fun p => p.1 == k)).map (·.2)
 
